@@ -33,9 +33,17 @@ from harness.common import exc_name
 PID = "C04"
 TITLE = "Context non-interference between Split branches and across accumulators"
 LEAN_MODULES = ["LenaModel.Props.C04"]
-LEAN_SOURCES = ["LenaModel/Model/C04.lean", "LenaModel/Lemmas/C04.lean", "LenaModel/Props/C04.lean"]
+LEAN_SOURCES = ["LenaModel/Model/C04.lean", "LenaModel/Lemmas/C04.lean", "LenaModel/Lemmas/C04Alone.lean",
+                "LenaModel/Props/C04.lean"]
 DRIVER = "drivers/C04.lean"
 THEOREMS = [
+    "Lena.C04.split_tokens_disjoint",
+    "Lena.C04.fill_tokens_disjoint",
+    "Lena.C04.zip_tokens_disjoint",
+    "Lena.C04.branch_alone_equiv",
+    "Lena.C04.accOps_freshYield",
+    "Lena.C04.acc_yield_fresh",
+    "Lena.C04.store_yields_filled",
 ]
 TRUSTED = [
     "Lean 4.33.0 kernel; axioms limited to propext, Classical.choice, Quot.sound (audited by #print axioms on every run)",
